@@ -32,7 +32,8 @@ struct Sched;
 static Sched * g = nullptr;
 static thread_local int tl_tid = -1;
 static thread_local bool tl_inPred = false;
-static thread_local int tl_held = 0;          // interesting+other mutexes held by this thread
+static thread_local int tl_held = 0;          // list-level mutexes held by this thread (a critical section is one step)
+static thread_local int tl_heldMap = 0;       // the dispatcher's listenerMutex (variant VC_DISP): holding it does not make the code atomic
 static thread_local const char * tl_call = ""; // current call kind
 static thread_local long tl_payload = -1;      // payload of the enqueue in progress
 
@@ -49,8 +50,11 @@ struct Sched {
 	std::vector<TState> st;
 	std::vector<bool> timed;        // parked in waitFor
 	std::vector<bool> timedOut;
-	const void * qm = nullptr;      // address of queueListMutex
+	const void * qm = nullptr;      // address of the list mutex
 	bool qmHeld = false;
+	const void * qm2 = nullptr;     // address of the dispatcher's listenerMutex (variant VC_DISP)
+	bool qm2Held = false;
+	std::vector<int> want;          // which of the two a T_WANT_LOCK thread waits for
 	const void * ec = nullptr;
 	const void * nc = nullptr;
 	unsigned long long rng = 1;
@@ -64,7 +68,8 @@ struct Sched {
 	bool enabled(int t) const {
 		switch(st[t]) {
 		case T_READY: return true;
-		case T_WANT_LOCK: case T_WOKEN: return !qmHeld;
+		case T_WANT_LOCK: return (!want.empty() && want[t] == 1) ? !qm2Held : !qmHeld;
+		case T_WOKEN: return !qmHeld;
 		default: return false;
 		}
 	}
@@ -120,17 +125,28 @@ struct VMutex {
 	bool held = false;
 	void lock() {
 		if(g && g->active && tl_tid >= 0 && (const void *)this == g->qm) {
+			{ std::lock_guard<std::mutex> lk(g->m); g->want[tl_tid] = 0; }
 			g->switchOut(T_WANT_LOCK);   // resumed only when the mutex is free
 			{ std::lock_guard<std::mutex> lk(g->m); g->qmHeld = true; }
 			held = true; ++tl_held;
 			g->step("cs");
 			return;
 		}
+		if(g && g->active && tl_tid >= 0 && (const void *)this == g->qm2) {
+			{ std::lock_guard<std::mutex> lk(g->m); g->want[tl_tid] = 1; }
+			g->switchOut(T_WANT_LOCK);
+			{ std::lock_guard<std::mutex> lk(g->m); g->qm2Held = true; }
+			held = true; ++tl_heldMap;
+			g->step("map");
+			return;
+		}
 		if(held) { std::fprintf(stderr, "VMutex: uninstrumented mutex contended\n"); std::abort(); }
 		held = true; ++tl_held;
 	}
 	void unlock() {
-		held = false; --tl_held;
+		held = false;
+		if(g && (const void *)this == g->qm2) { --tl_heldMap; std::lock_guard<std::mutex> lk(g->m); g->qm2Held = false; return; }
+		--tl_held;
 		if(g && (const void *)this == g->qm) { std::lock_guard<std::mutex> lk(g->m); g->qmHeld = false; }
 	}
 	bool try_lock() { if(held) return false; lock(); return true; }
@@ -165,8 +181,25 @@ struct VAtomic {
 };
 
 
-struct Policies { using Threading = eventpp::GeneralThreading<VMutex, VAtomic>; };
+#ifndef VC_MAP
+#define VC_MAP 0
+#endif
+struct Policies {
+	using Threading = eventpp::GeneralThreading<VMutex, VAtomic>;
+#if VC_MAP == 1
+	template <typename Key, typename T> using Map = std::map<Key, T>;
+#endif
+};
+#ifdef VC_DISP
+// variant: the same calls through an EventDispatcher (event 1): every call first takes the dispatcher's listenerMutex
+// (step "map", silent in Conc/CList.lean); the adding calls keep it while they work on the list.  `other` adds a
+// listener for a fresh event: the map grows / rehashes while the other threads look event 1 up.
+#include <eventpp/eventdispatcher.h>
+using Disp = eventpp::EventDispatcher<int, void(int), Policies>;
+using CL = Disp::CallbackList_;
+#else
 using CL = eventpp::CallbackList<void(int), Policies>;
+#endif
 
 static void hookPoint(const char * tag) {
 	if(tag[0] == 'c' && tag[1] == 'l' && schedulable()) { yieldPoint(); g->step(tag); }
@@ -203,8 +236,20 @@ static void runOne(const Run & r) {
 	s.spur = 0;
 	std::vector<std::vector<std::string>> rets(s.n);
 	std::vector<std::vector<std::string>> visits(s.n);
+	s.want.assign(s.n, 0);
 	{
+#ifdef VC_DISP
+		Disp disp;
+		{   // make the list of event 1 exist (its address is needed before the threads start)
+			auto h0 = disp.appendListener(1, CbFn{-1});
+			disp.removeListener(1, h0);
+		}
+		CL & list = disp.eventCallbackListMap[1];
+		s.qm2 = &disp.listenerMutex;
+		std::atomic<int> otherKey{100};
+#else
 		CL list;
+#endif
 		s.qm = &list.mutex;
 		s.ec = &list.currentCounter;
 		std::map<long, CL::Handle> handleOfGid;   // filled when a handle is returned
@@ -214,7 +259,11 @@ static void runOne(const Run & r) {
 		for(auto & c : r.setup) {
 			long local = nextLocal++;
 			s.gidOf[local] = s.nextGid++;
+#ifdef VC_DISP
+			auto h = disp.appendListener(1, CbFn{local});
+#else
 			auto h = list.append(CbFn{local});
+#endif
 			handleOfGid[s.gidOf[local]] = h;
 			(void)c;
 		}
@@ -225,7 +274,7 @@ static void runOne(const Run & r) {
 		for(int t = 0; t < s.n; ++t) { localBase[t] = nextLocal; nextLocal += 100; }
 		for(int t = 0; t < s.n; ++t) {
 			th.emplace_back([&, t]() {
-				tl_tid = t; tl_held = 0; tl_inPred = false;
+				tl_tid = t; tl_held = 0; tl_heldMap = 0; tl_inPred = false;
 				try {
 					{
 						std::unique_lock<std::mutex> lk(s.m);
@@ -239,6 +288,10 @@ static void runOne(const Run & r) {
 					for(auto & c : r.progs[t]) {
 						const std::string & op = c[0];
 						tl_call = op.c_str();
+#ifdef VC_DISP
+						// not a call of the list model: no result, no begin / end notes
+						if(op == "other") { disp.appendListener(otherKey++, CbFn{-1}); continue; }
+#endif
 						{ std::lock_guard<std::mutex> lk(s.m); s.log.push_back("note " + std::to_string(t) + " begin " + std::to_string(callNo)); }
 						struct EndNote { Sched & s; int t; long k; ~EndNote() { std::lock_guard<std::mutex> lk(s.m); s.log.push_back("note " + std::to_string(t) + " end " + std::to_string(k)); } } endNote{s, t, callNo};
 						++callNo;
@@ -246,20 +299,36 @@ static void runOne(const Run & r) {
 							long local = localBase[t] + k++;
 							tl_payload = local;
 							CL::Handle h;
+#ifdef VC_DISP
+							if(op == "append") h = disp.appendListener(1, CbFn{local});
+							else if(op == "prepend") h = disp.prependListener(1, CbFn{local});
+							else h = disp.insertListener(1, CbFn{local}, hOf(std::atol(c[1].c_str())));
+#else
 							if(op == "append") h = list.append(CbFn{local});
 							else if(op == "prepend") h = list.prepend(CbFn{local});
 							else h = list.insert(CbFn{local}, hOf(std::atol(c[1].c_str())));
+#endif
 							long gid; { std::lock_guard<std::mutex> lk(s.m); gid = s.gidOf[local]; }
 							{ std::lock_guard<std::mutex> lk(hm); handleOfGid[gid] = h; }
 							rets[t].push_back("h" + std::to_string(gid));
 						}
+#ifdef VC_DISP
+						else if(op == "remove") rets[t].push_back(disp.removeListener(1, hOf(std::atol(c[1].c_str()))) ? "true" : "false");
+						else if(op == "owns") rets[t].push_back(disp.ownsHandle(1, hOf(std::atol(c[1].c_str()))) ? "true" : "false");
+						else if(op == "empty") rets[t].push_back(disp.hasAnyListener(1) ? "false" : "true");
+#else
 						else if(op == "remove") rets[t].push_back(list.remove(hOf(std::atol(c[1].c_str()))) ? "true" : "false");
 						else if(op == "owns") rets[t].push_back(list.ownsHandle(hOf(std::atol(c[1].c_str()))) ? "true" : "false");
 						else if(op == "empty") rets[t].push_back(list.empty() ? "true" : "false");
+#endif
 						else if(op == "invoke") {
 							std::string v;
 							tl_visit = &v;
+#ifdef VC_DISP
+							disp.dispatch(1, 0);
+#else
 							list(0);
+#endif
 							tl_visit = nullptr;
 							visits[t].push_back(v);
 							rets[t].push_back("unit");
